@@ -97,3 +97,39 @@ Print Assumptions P_load_all_status_documented.
 Theorem P_refresh_all_consistent : forall f s, mem_ok (sv_mem (update f [CAll] s)).
 Proof. exact update_all_ok. Qed.
 Print Assumptions P_refresh_all_consistent.
+
+(* ---- whatever the cache files hold, the state a started (or fully refreshed) server answers from cannot make a request
+   hang: stop times in order (D13), walking times >= 0 (D15) are guaranteed by the loaders, and with exactly that the
+   rebuild loop, the transfer count of the forward accessibility map and the journey clean-up all terminate
+   (Proofs/LoadedTimes.v, Proofs/LoadedLoops.v).  The hypothesis on the request is what the parameter factory guarantees
+   (a negative min_waiting_time is normalised to 0). ---- *)
+From TrV Require Import Calc Proofs.LoadedTimes Proofs.LoadedLoops.
+Local Open Scope Z_scope.
+
+Theorem P_loaded_stop_times_in_order : forall f t,
+  In t (mm_trips (fst (load_all f))) -> conn_times_ok (t_times t) = true.
+Proof. exact load_all_times_in_order. Qed.
+Print Assumptions P_loaded_stop_times_in_order.
+
+Theorem P_loaded_walking_times_nonneg : forall f,
+  tables_nonneg (mm_fp (fst (load_all f))) (mm_rfp (fst (load_all f))).
+Proof. exact load_all_walks_nonneg. Qed.
+Print Assumptions P_loaded_walking_times_nonneg.
+
+Theorem P_started_server_never_hangs : forall f s p acc egr rows,
+  let d := data_of (fst (load_all f)) in
+  0 <= q_minw p ->
+  (forall fresh, calc_single d (conn_set d s) p acc egr fresh <> Hang) /\
+  alternatives d (conn_set d s) p acc egr <> Hang /\
+  calc_allnodes d (conn_set d s) p rows <> Hang.
+Proof. exact started_server_never_hangs. Qed.
+Print Assumptions P_started_server_never_hangs.
+
+Theorem P_refreshed_server_never_hangs : forall f sv0 s p acc egr rows,
+  let d := data_of (sv_mem (update f [CAll] sv0)) in
+  0 <= q_minw p ->
+  (forall fresh, calc_single d (conn_set d s) p acc egr fresh <> Hang) /\
+  alternatives d (conn_set d s) p acc egr <> Hang /\
+  calc_allnodes d (conn_set d s) p rows <> Hang.
+Proof. exact refreshed_server_never_hangs. Qed.
+Print Assumptions P_refreshed_server_never_hangs.
